@@ -20,7 +20,7 @@ TOL = 2e-3
 
 
 def tier_params(tier):
-    return {"quick": dict(timeout=20.0), "thorough": dict(timeout=120.0)}[tier]
+    return {"quick": dict(timeout=60.0), "thorough": dict(timeout=180.0)}[tier]
 
 
 def z3_vars_of(tree):
